@@ -361,7 +361,7 @@ def c02_cases(tier, seed):
 PROPS["C02"] = {
     "theorems": ["C02_text_inline", "C02_text_preserves_nonws", "C02_text_no_break_out", "C02_children_skip_empty_text",
                  "C02_children_skip_empty_expr", "C02_no_children_null", "C02_children_array",
-                 "splitLines_glue", "cleanText_glue", "toLines_spec", "C02_text_is_the_jsx_rule"],
+                 "splitLines_glue", "cleanText_glue", "toLines_spec", "C02_text_is_the_jsx_rule", "C02_children_in_order"],
     "extra_modules": ["VueJsx.Props.C02b"],
     "cases": c02_cases,
     "post": literal_roundtrip_post,
@@ -1043,7 +1043,7 @@ def c14_cases(tier, seed):
 
 PROPS["C14"] = {
     "theorems": ["C14_defaults", "C14_setField_frame", "C14_unknown_key_ignored", "C14_absent_keeps", "C14_invalid_pattern_rejected",
-                 "C14_transformOn_only_on", "C14_transformOn_spread", "C14_objectSlots_only_sole_ident_or_call", "C14_patterns_only_matched_tags", "C14_no_option_matters_without_jsx", "C14_resolveType_only_defineComponent"],
+                 "C14_transformOn_only_on", "C14_transformOn_spread", "C14_objectSlots_only_sole_ident_or_call", "C14_patterns_only_matched_tags", "C14_no_option_matters_without_jsx", "C14_resolveType_only_defineComponent", "C14_patterns_only_matched_namespaced_tags"],
     "cases": c14_cases,
     "unit_clause": {"options": "options-parse"},
     "trusted_extra": ["JSON text -> JSON value parsing (Python's json for the model side, serde_json for the implementation) is trusted; regex validity is answered by the real regex crate"],
@@ -1617,7 +1617,8 @@ def _await_in_generated_arrow(node):
 PROPS["C07"] = {
     "theorems": ["C07_expression_replaced", "C07_fragment_is_call", "C07_element_is_call", "importFromVue_is_ident", "importFromVue_keeps",
                  "C07_ident_tag_not_jsx", "C07_member_and_namespaced_tags", "C07_member_tag_no_jsx", "C07_modifier_keys_printable",
-                 "C07_pragma_callee_one_word", "parseDirective_DirOk", "parseVModel_DirOk", "dedupeProps_NoJsx", "attrStep_ok", "assembleProps_ok", "finishChildren_ok", "trElement_ok", "trFragment_ok", "trAttrs_ok", "trChildList_ok", "openingHook_ok", "visit_NoJsx", "visitKids_NoJsx", "visitAttrs_Prep", "visitChildren_Prep", "visitValue_Post", "finishModule_NoJsx", "C07_module_NoJsx"],
+                 "C07_pragma_callee_one_word", "parseDirective_DirOk", "parseVModel_DirOk", "dedupeProps_NoJsx", "attrStep_ok", "assembleProps_ok", "finishChildren_ok", "trElement_ok", "trFragment_ok", "trAttrs_ok", "trChildList_ok", "openingHook_ok", "visit_NoJsx", "visitKids_NoJsx", "visitAttrs_Prep", "visitChildren_Prep", "visitValue_Post", "finishModule_NoJsx", "C07_module_NoJsx", "C07_member_tag_printable_or_reported"],
+    "extra_modules": ["VueJsx.Props.C07b"],
     "cases": c07_cases,
     "post": c07_post,
     "nontrivial": lambda c, r: True,
